@@ -4,6 +4,7 @@ package bridge
 
 import (
 	"fmt"
+	"reflect"
 
 	"github.com/free5gc/ike/eap"
 	"github.com/free5gc/ike/message"
@@ -24,7 +25,12 @@ func ToLib(m model.Message) (*message.IKEMessage, error) {
 	if err != nil {
 		return nil, err
 	}
-	return &message.IKEMessage{IKEHeader: ToLibHeader(m.Header), Payloads: ps}, nil
+	lm := &message.IKEMessage{IKEHeader: ToLibHeader(m.Header), Payloads: ps}
+	// every other message (a function of the header, so runs stay reproducible) is housed in shared backing arrays
+	if (m.Header.MsgID^uint32(m.Header.ISPI))&1 == 1 {
+		Arena(lm)
+	}
+	return lm, nil
 }
 
 // ToLibHeader builds the header object. NextPayload and PayloadBytes are bookkeeping the encoder recomputes; they are
@@ -331,4 +337,79 @@ func FromLibEAP(e *eap.EAP) (model.EAP, error) {
 		return out, fmt.Errorf("bridge: unexpected EAP type data %T", e.EapTypeData)
 	}
 	return out, nil
+}
+
+// Arena re-houses every octet string and every list reachable through the exported fields of a library message in shared
+// backing arrays: each slice keeps its length and content but gets spare capacity, and what lies behind it in memory is
+// ANOTHER field of the same message (the fields are laid out in reverse of their natural order, followed by a guard area).
+// Callers build messages like that all the time - addresses carved out of one table, SPIs out of one buffer, transform lists
+// out of one array - and a library that append()s to a caller's slice then writes into the neighbouring field. Values built
+// with exact capacity (what ToLib produces otherwise) can never show that.
+func Arena(m *message.IKEMessage) {
+	type slot struct{ v reflect.Value }
+	byType := map[reflect.Type][]slot{}
+	var order []reflect.Type
+	seen := map[uintptr]bool{}
+	var walk func(v reflect.Value)
+	walk = func(v reflect.Value) {
+		switch v.Kind() {
+		case reflect.Ptr:
+			if v.IsNil() || seen[v.Pointer()] {
+				return
+			}
+			seen[v.Pointer()] = true
+			walk(v.Elem())
+		case reflect.Interface:
+			if !v.IsNil() {
+				walk(v.Elem())
+			}
+		case reflect.Struct:
+			for i := 0; i < v.NumField(); i++ {
+				if v.Type().Field(i).PkgPath == "" { // exported
+					walk(v.Field(i))
+				}
+			}
+		case reflect.Slice:
+			if v.Len() == 0 {
+				return
+			}
+			if v.CanSet() {
+				t := v.Type()
+				if _, ok := byType[t]; !ok {
+					order = append(order, t)
+				}
+				byType[t] = append(byType[t], slot{v})
+			}
+			switch v.Type().Elem().Kind() {
+			case reflect.Ptr, reflect.Interface, reflect.Struct:
+				for i := 0; i < v.Len(); i++ {
+					walk(v.Index(i))
+				}
+			}
+		}
+	}
+	walk(reflect.ValueOf(&m.Payloads))
+	const guard = 48
+	for _, t := range order {
+		slots := byType[t]
+		total := guard
+		for _, s := range slots {
+			total += s.v.Len()
+		}
+		arena := reflect.MakeSlice(t, total, total)
+		off := 0
+		for i := len(slots) - 1; i >= 0; i-- { // reverse of the natural order
+			s := slots[i].v
+			n := s.Len()
+			reflect.Copy(arena.Slice(off, off+n), s)
+			s.Set(arena.Slice(off, off+n)) // capacity runs to the end of the arena
+			off += n
+		}
+		if t.Elem().Kind() == reflect.Uint8 {
+			g := arena.Slice(off, total).Bytes()
+			for i := range g {
+				g[i] = 0xC3
+			}
+		}
+	}
 }
